@@ -1141,7 +1141,7 @@ func headerExitsFrom(header, pred *ssa.BasicBlock, body map[*ssa.BasicBlock]bool
 // send under its lock: a device that stops receiving while it is attached stalls the MIDI input of every device after a
 // few messages, and its own detach. So the consumer (handleInputEvents and what runs on its behalf) may end only by
 // observing the cancellation (or the end of its input): no return is reachable from its entry without passing the code
-// of a cancellation case.
+// of a cancellation case, or a call of a helper that itself ends only that way.
 func ruleInputConsumed(c *Ctx, dv *dev, rule string) {
 	fn := dv.fn["handleInputEvents"]
 	if fn == nil || len(fn.Blocks) == 0 {
@@ -1150,91 +1150,196 @@ func ruleInputConsumed(c *Ctx, dv *dev, rule string) {
 	key := "device.handleInputEvents/ends-only-on-cancellation"
 	pos := c.P.Pos(fn.Pos())
 	midiIn := dv.fields["midiIn"]
-	cut := map[*ssa.BasicBlock]bool{}
 	receives := 0
-	for _, b := range fn.Blocks {
-		for _, in := range b.Instrs {
-			switch x := in.(type) {
-			case *ssa.Select:
-				for k, st := range x.States {
-					if st.Dir != types.RecvOnly {
-						continue
-					}
-					if midiIn != nil && derivesFromField(st.Chan, midiIn, map[ssa.Value]bool{}) {
-						receives++
-					}
-					if isCtxDone(st.Chan) {
-						if cb := selectCaseBlock(x, k); cb != nil {
-							cut[cb] = true
+	memo := map[*ssa.Function]*ssa.BasicBlock{}
+	done := map[*ssa.Function]bool{}
+	waitsForCancel := map[*ssa.Function]bool{}
+	cutAfter := map[ssa.Instruction]bool{}
+	var earlyReturn func(f *ssa.Function, depth int) *ssa.BasicBlock
+	earlyReturn = func(f *ssa.Function, depth int) *ssa.BasicBlock {
+		if done[f] {
+			return memo[f]
+		}
+		done[f] = true
+		cut := map[*ssa.BasicBlock]bool{}
+		for _, b := range f.Blocks {
+			for _, in := range b.Instrs {
+				switch x := in.(type) {
+				case *ssa.Select:
+					for k, st := range x.States {
+						if st.Dir != types.RecvOnly {
+							continue
+						}
+						if midiIn != nil && derivesFromField(st.Chan, midiIn, map[ssa.Value]bool{}) {
+							receives++
+						}
+						if isCtxDone(st.Chan) {
+							if cb := selectCaseBlock(x, k); cb != nil {
+								cut[cb] = true
+							}
 						}
 					}
-				}
-			case *ssa.UnOp:
-				if x.Op != token.ARROW {
-					continue
-				}
-				if midiIn != nil && derivesFromField(x.X, midiIn, map[ssa.Value]bool{}) {
-					receives++
-					// `ev, ok := <-d.midiIn; if !ok { return }`: the closed-channel branch is an end of the input
-					if x.CommaOk && x.Referrers() != nil {
-						for _, r := range *x.Referrers() {
-							if ex, isEx := r.(*ssa.Extract); isEx && ex.Index == 1 && ex.Referrers() != nil {
-								for _, rr := range *ex.Referrers() {
-									if ifi, isIf := rr.(*ssa.If); isIf {
-										cut[ifi.Block().Succs[1]] = true
+				case *ssa.UnOp:
+					if x.Op != token.ARROW {
+						continue
+					}
+					if midiIn != nil && derivesFromField(x.X, midiIn, map[ssa.Value]bool{}) {
+						receives++
+						// `ev, ok := <-d.midiIn; if !ok { return }`: the closed-channel branch is an end of the input
+						if x.CommaOk && x.Referrers() != nil {
+							for _, r := range *x.Referrers() {
+								if ex, isEx := r.(*ssa.Extract); isEx && ex.Index == 1 && ex.Referrers() != nil {
+									for _, rr := range *ex.Referrers() {
+										if ifi, isIf := rr.(*ssa.If); isIf {
+											cut[ifi.Block().Succs[1]] = true
+										}
 									}
 								}
 							}
 						}
 					}
-				}
-				if isCtxDone(x.X) {
-					// a plain blocking `<-ctx.Done()`: whatever follows has observed the cancellation
-					if len(b.Succs) > 0 {
+					if isCtxDone(x.X) {
+						// a plain blocking `<-ctx.Done()`: whatever follows has observed the cancellation
 						for _, s := range b.Succs {
 							cut[s] = true
 						}
-					} else {
-						cut[b] = true
+						if len(b.Succs) == 0 {
+							cut[b] = true
+						}
 					}
-				}
-			case *ssa.Range:
-				if midiIn != nil && derivesFromField(x.X, midiIn, map[ssa.Value]bool{}) {
-					receives++
+				case *ssa.Range:
+					if midiIn != nil && derivesFromField(x.X, midiIn, map[ssa.Value]bool{}) {
+						receives++
+					}
+				case *ssa.Call:
+					// a helper of the device that itself ends only on cancellation: what follows the call has observed it
+					callee := x.Call.StaticCallee()
+					if callee != nil && depth < 3 && len(callee.Blocks) > 0 && funcPkgPath(callee) == pkgDevice && passesContext(x) {
+						before := receives
+						if earlyReturn(callee, depth+1) == nil && (receives > before || done[callee]) && waitsForCancel[callee] {
+							cutAfter[in] = true
+						}
+					}
 				}
 			}
 		}
+		waitsForCancel[f] = len(cut) > 0
+		// is a return reachable from the entry without entering a cancellation block? The walk is edge-sensitive at loop
+		// headers that test a boolean loop variable: arriving with the constant true only enters the body, with false only
+		// leaves; arriving from the body with the variable unchanged stays in the loop (it was true when the body was entered)
+		type edge struct {
+			b    *ssa.BasicBlock
+			from *ssa.BasicBlock
+		}
+		seen := map[edge]bool{}
+		stack := []edge{{f.Blocks[0], nil}}
+		var early *ssa.BasicBlock
+		for len(stack) > 0 && early == nil {
+			e := stack[len(stack)-1]
+			stack = stack[:len(stack)-1]
+			if seen[e] || cut[e.b] || e.b == f.Recover {
+				continue
+			}
+			seen[e] = true
+			// a call after which the cancellation has been observed ends the walk inside its block
+			stop := false
+			for _, in := range e.b.Instrs {
+				if cutAfter[in] {
+					stop = true
+				}
+			}
+			if stop {
+				continue
+			}
+			last := e.b.Instrs[len(e.b.Instrs)-1]
+			if _, isRet := last.(*ssa.Return); isRet {
+				if !rangeOverInputEnds(e.b, midiIn) {
+					early = e.b
+				}
+				continue
+			}
+			succs := e.b.Succs
+			if ifi, isIf := last.(*ssa.If); isIf && e.from != nil {
+				cond, neg := ifi.Cond, false
+				for {
+					u, ok := cond.(*ssa.UnOp)
+					if !ok || u.Op != token.NOT {
+						break
+					}
+					cond, neg = u.X, !neg
+				}
+				if phi, isPhi := cond.(*ssa.Phi); isPhi && phi.Block() == e.b {
+					for i, p := range e.b.Preds {
+						if p != e.from {
+							continue
+						}
+						if k, isK := phi.Edges[i].(*ssa.Const); isK && k.Value != nil && k.Value.Kind() == constant.Bool {
+							if constant.BoolVal(k.Value) != neg {
+								succs = e.b.Succs[:1]
+							} else {
+								succs = e.b.Succs[1:]
+							}
+						} else if phi.Edges[i] == ssa.Value(phi) {
+							// unchanged since the body was entered: the test comes out as it did then, back into the body
+							var body []*ssa.BasicBlock
+							for _, sc := range e.b.Succs {
+								if reachesWithout(sc, e.from, e.b) {
+									body = append(body, sc)
+								}
+							}
+							if len(body) == 1 {
+								succs = body
+							}
+						}
+					}
+				}
+			}
+			for _, s := range succs {
+				stack = append(stack, edge{s, e.b})
+			}
+		}
+		memo[f] = early
+		return early
 	}
+	early := earlyReturn(fn, 0)
 	if receives == 0 {
 		c.Bad(rule, key, pos, "the device never receives from its MIDI-input channel: the fan-out blocks on it after the channel's buffer is full")
 		return
-	}
-	// is a return reachable from the entry without entering a cancellation block?
-	seen := map[*ssa.BasicBlock]bool{}
-	stack := []*ssa.BasicBlock{fn.Blocks[0]}
-	var early *ssa.BasicBlock
-	for len(stack) > 0 && early == nil {
-		b := stack[len(stack)-1]
-		stack = stack[:len(stack)-1]
-		if seen[b] || cut[b] || b == fn.Recover {
-			continue
-		}
-		seen[b] = true
-		if _, isRet := b.Instrs[len(b.Instrs)-1].(*ssa.Return); isRet {
-			early = b
-			break
-		}
-		// a `for range d.midiIn` loop leaves through the exhausted channel: that exit is an end of the input
-		stack = append(stack, b.Succs...)
-	}
-	if early != nil && rangeOverInputEnds(early, midiIn) {
-		early = nil
 	}
 	if early != nil {
 		c.Bad(rule, key, c.P.Pos(firstPos(early)), "the MIDI-input consumer can return without having observed the cancellation or the end of its input: the device stays attached to the fan-out, whose blocking delivery then stalls the MIDI input of every device")
 		return
 	}
 	c.OK(rule, key, pos, fmt.Sprintf("%d receive site(s); every return lies behind a cancellation case (or the closed input)", receives))
+}
+
+// reachesWithout: to is reachable from from without passing through avoid.
+func reachesWithout(from, to, avoid *ssa.BasicBlock) bool {
+	seen := map[*ssa.BasicBlock]bool{}
+	stack := []*ssa.BasicBlock{from}
+	for len(stack) > 0 {
+		x := stack[len(stack)-1]
+		stack = stack[:len(stack)-1]
+		if x == to {
+			return true
+		}
+		if seen[x] || x == avoid {
+			continue
+		}
+		seen[x] = true
+		stack = append(stack, x.Succs...)
+	}
+	return false
+}
+
+// passesContext: one of the call's arguments is a context handed down by the caller.
+func passesContext(call *ssa.Call) bool {
+	for _, a := range call.Call.Args {
+		if n, ok := a.Type().(*types.Named); ok && n.Obj().Name() == "Context" && ctxFromCaller(a, 0) {
+			return true
+		}
+	}
+	return false
 }
 
 // rangeOverInputEnds: b is only reached through the exit edge of a `for range d.midiIn` loop.
